@@ -53,7 +53,17 @@ class SingleSched:
             try:
                 if to_throw is not None:
                     exc, to_throw = to_throw, None
-                    y = coro.throw(exc)
+                    if rt.prog.get("foreign_resume"):
+                        # the suspended coroutine is closed / interrupted from ANOTHER flow of control (a fresh
+                        # context, as an executor thread or a loop callback would have); what the user code sees of the
+                        # in-progress view during that segment is the other flow's and is not compared
+                        rt.tls.foreign = True
+                        try:
+                            y = contextvars.Context().run(coro.throw, exc)
+                        finally:
+                            rt.tls.foreign = False
+                    else:
+                        y = coro.throw(exc)
                 else:
                     y = coro.send(None)
             except StopIteration as stop:
